@@ -318,3 +318,52 @@ def et1(facts, rep, rule='ET-1'):
             else:
                 rep.ok(rule, key, b.loc(m), 'accept test on every path')
     rep.floor(rule, 'mask look-ups', sites, 1)
+
+
+def _all_places(body):
+    for bb in sorted(body.reachable(0)):
+        for pl in eng_gd.place_mentions(body, bb):
+            yield bb, pl
+        t = body.term(bb)
+        if t['k'] == 'assert' and isinstance(t.get('msg'), dict):
+            pass
+
+
+# ------------------------------------------------------------------------------------------------ PQ-1 (C09)
+def pq1(facts, rep, rule='PQ-1'):
+    rep.rule(rule, 'symbol tables of Myers\' matcher cover every byte: each table of bit-vectors `[T; N]` (peq) in simple.rs / '
+                   'long.rs has N = 256 entries and is indexed by the symbol itself (a byte widened to usize), never by a '
+                   'folded / masked / reduced value - otherwise two different bytes share an entry and count as equal')
+    n = 0
+    for b in facts.body_list:
+        if not b.path.startswith(('pattern_matching::myers::simple::', 'pattern_matching::myers::long::')) or '::tests' in b.path:
+            continue
+        b = facts.view(b)
+        seen = set()
+        for bb, pl in _all_places(b):
+            pj, pjt = pl.get('pj') or [], pl.get('pjt') or []
+            for k, el in enumerate(pj):
+                if not (isinstance(el, dict) and 'i' in el) or k >= len(pjt):
+                    continue
+                m = re.match(r'\[T; (\d+)\]$', pjt[k])
+                if not m:
+                    continue
+                sig = (bb, el['i'])
+                if sig in seen:
+                    continue
+                seen.add(sig)
+                n += 1
+                rep.analysed_body(b)
+                key = '%s|table-indexed-by-the-byte' % b.path
+                e = strip_casts(b.expr_operand({'c': {'l': el['i']}}, inline_user=True))
+                arith = isinstance(e, tuple) and (e[0] in ('bin', 'un') or (e[0] == 'call' and (e[3] or e[1]).rsplit('::', 1)[-1] in (
+                    'bitand', 'rem', 'shr', 'shl', 'sub', 'add', 'wrapping_sub', 'wrapping_add', 'rem_euclid', 'min', 'max',
+                    'to_ascii_uppercase', 'to_ascii_lowercase')))
+                if int(m.group(1)) != 256:
+                    rep.bad(rule, key, b.loc(bb), 'a symbol table of %s entries cannot hold one entry per byte value' % m.group(1))
+                elif arith:
+                    rep.bad(rule, key, b.loc(bb), 'the table is indexed by `%s`, not by the symbol: different bytes share an entry '
+                                                  'and are treated as equal' % fmt(e)[:80])
+                else:
+                    rep.ok(rule, key, b.loc(bb), 'indexed by %s' % fmt(e)[:60])
+    rep.floor(rule, 'table accesses', n, 6)
